@@ -2,6 +2,7 @@
 pub mod choices;
 pub mod coord;
 pub mod idehost;
+pub mod lsp;
 pub mod panics;
 pub mod watchdog;
 
